@@ -454,7 +454,7 @@ func c14Disjoint(c *fw.Ctx) {
 			if seg == "" {
 				continue
 			}
-			name := seg
+			name := strings.TrimSuffix(seg, "(*)")
 			if i := strings.Index(name, "["); i >= 0 {
 				name = name[:i]
 			}
@@ -467,7 +467,7 @@ func c14Disjoint(c *fw.Ctx) {
 	for _, e := range ctorTable {
 		fw.Recover(func() {
 			a, b := e.mk(), e.mk()
-			ra, rb := lib.Regions(a), lib.Regions(b)
+			ra, rb := lib.Objects(a), lib.Objects(b)
 			c.Count("constructor_pairs_checked", 1)
 			for _, x := range ra {
 				if x.Size == 0 || !exportedPath(x.Path) {
